@@ -147,7 +147,8 @@ def resolve_hrefs(element, xmlids, _seen=None):
 
         elif e.get('href'):
             href = e.get('href').replace('#', '')
-            resolved_element = xmlids[href]
+            # xmlids only knows the ids that are in the document
+            resolved_element = xmlids.get(href)
             if resolved_element is None:
                 continue
 
